@@ -694,8 +694,9 @@ type c01World struct {
 	m     *c01Model
 	px    *Proxy
 	creds []*c01Cred
-	// oddFull: the further methods run on the full request alphabet (thorough tier, configurations of
-	// the orthogonal sub-product); elsewhere on the reduced one
+	// oddFull: the further methods run on the full request alphabet and the auth-only endpoint with a
+	// query under both Accept values (thorough tier, configurations of the orthogonal sub-product);
+	// elsewhere on the reduced alphabet
 	oddFull bool
 }
 
@@ -1214,7 +1215,7 @@ func (e *c01Env) runConfig(w *c01World, only *c01Case) (lines []string) {
 					if only != nil && (only.Endpoint != ep.Name || only.Method != method || only.Remote != remote || only.Accept != accept) {
 						continue
 					}
-					if only == nil && ((odd && !w.oddFull && w.skipOddCell(remote, accept)) || (c.Quick() && ep.hasRestriction() && accept != c01Accepts[0])) {
+					if only == nil && ((odd && !w.oddFull && w.skipOddCell(remote, accept)) || (!w.oddFull && ep.hasRestriction() && accept != c01Accepts[0])) {
 						continue
 					}
 					baseline := "" // failing observable of the credential-less request of this cell
